@@ -8,7 +8,7 @@
 // time.  Commands are Go closures that read the dependency's files.
 //
 //	depload <scratch dir>      line protocol on stdin, one case per line (fields separated by tabs):
-//	    case <n outputs> <k dependants> <schedule> [<init>] [<m>]
+//	    case <n outputs> <k dependants> <schedule> [<init>] [<m>] [<rf>]
 //	  schedule = comma separated tokens
 //	    s<t>  dependant t is handed to a worker: LoadDependencyOutputs, then its command
 //	    g     release ONE held blob read: the one of the lowest output index   (G: the highest)
@@ -18,6 +18,10 @@
 //	  m    = the blobs of the outputs m, ..., n-1 are LOST from the cache (default n: none).  A dependant that finds the
 //	         dependency unrestorable re-runs it: the dependency has a real command (run by the executor through sh)
 //	         that half-writes every output, waits at a gate (a FIFO of its own), then writes every output completely
+//	  rf   = 1: every read of the dependency's target RESULT (not of its blobs) fails while the schedule runs -- the result
+//	         vanished or the backend errs between the dependency's own cache check and the dependants' lookups (default 0).
+//	         The dependency is handed to the dependants as "cache hit, not loaded" as always; a dependant that cannot read
+//	         the result re-runs the dependency at once (same command as above)
 //	  After every token the harness waits until every goroutine is blocked and every running command of the dependency
 //	  sits at its gate (quiescence, read off the goroutine states of the runtime and /proc: no timing).  After the last
 //	  token every remaining held read / waiting command is released, one window each.
@@ -27,7 +31,8 @@
 //	    held    output indices whose blob read is held at the gate when the window ends, joined by '+', or '-'
 //	    gate    number of runs of the dependency's command that wait at their gate when the window ends
 //	    events  in order of occurrence, joined by ',' (or '-'):
-//	            tget (a target result was read), get:<i> (a read of blob i reached the backend), lost:<i> (a read of the
+//	            tget (a target result was read), tfail (the read of the dependency's target result failed: rf),
+//	            get:<i> (a read of blob i reached the backend), lost:<i> (a read of the
 //	            lost blob i failed), cmd:<t>:<c|s|m|t per output> (the command of t ran and saw current | stale | missing |
 //	            torn), err:<t> (load failed), run (a run of the dependency's command started), ran (one ended)
 //	  then ';end/<started dependants whose command has not run, joined by '+', or '-'>/<ok|hang|stuck:<goroutine state>>/<cached>'
@@ -40,6 +45,7 @@ package main
 import (
 	"bytes"
 	"context"
+	"errors"
 	"io"
 	"os"
 	"sort"
@@ -54,13 +60,16 @@ type heldRead struct {
 	release chan struct{}
 }
 
+var errResultUnreadable = errors.New("depload: the target result cannot be read (injected fault)")
+
 type backend struct {
-	mu     sync.Mutex
-	data   map[string][]byte
-	armed  bool
-	blobs  map[string]int // digest -> output index (of the case being run)
-	held   []*heldRead
-	events []string
+	mu         sync.Mutex
+	data       map[string][]byte
+	armed      bool
+	failTarget string         // while armed: every Get of this key under "target" fails ("" = none)
+	blobs      map[string]int // digest -> output index (of the case being run)
+	held       []*heldRead
+	events     []string
 }
 
 func (b *backend) TypeName() string { return "depload" }
@@ -73,6 +82,11 @@ func (b *backend) event(e string) {
 
 func (b *backend) Get(_ context.Context, path, key string) (io.ReadCloser, error) {
 	b.mu.Lock()
+	if b.armed && path == "target" && b.failTarget != "" && key == b.failTarget {
+		b.events = append(b.events, "tfail")
+		b.mu.Unlock()
+		return nil, errResultUnreadable
+	}
 	content, ok := b.data[path+"/"+key]
 	if !ok {
 		if idx, known := b.blobs[key]; b.armed && path == "cas" && known {
